@@ -76,14 +76,14 @@ def annot_sexp(n: ast.expr | None, classes: set[str]) -> str:
 
 
 def class_table(src: str) -> tuple[str, set[str]]:
-	"""the user classes of the program as the driver's `ct` s-expression (top-level classes; nested classes are not modelled)"""
+	"""the user classes of the program as the driver's `ct` s-expression (top-level classes, bases in the written order; nested classes are not modelled)"""
 	tree = ast.parse(src)
 	classes = {n.name for n in tree.body if isinstance(n, ast.ClassDef)}
 	out = []
 	for c in tree.body:
 		if not isinstance(c, ast.ClassDef):
 			continue
-		if len(c.bases) > 1 or any(not isinstance(b, ast.Name) or b.id not in classes for b in c.bases):
+		if any(not isinstance(b, ast.Name) or b.id not in classes for b in c.bases):
 			raise X.Unsupported(f'bases of {c.name}')
 		members: dict[str, tuple[str, str]] = {}
 		for st in c.body:
@@ -102,7 +102,8 @@ def class_table(src: str) -> tuple[str, set[str]]:
 			elif isinstance(st, ast.ClassDef):
 				raise X.Unsupported('nested class')
 		ms = ' '.join(f'( {a} {k} {t} )' for a, (k, t) in members.items())
-		out.append(f"( {c.name} {c.bases[0].id if c.bases else '-'} {ms} )")  # type: ignore[attr-defined]
+		bases = [b.id for b in c.bases]  # type: ignore[attr-defined]
+		out.append(f"( {c.name} {'-' if not bases else bases[0] if len(bases) == 1 else '( ' + ' '.join(bases) + ' )'} {ms} )")
 	return '( ' + ' '.join(out) + ' )', classes
 
 
